@@ -594,9 +594,17 @@ class _InlineNewHelpers(_InlineMethods):
     """expand, in every function of a module, the calls of same-module functions and same-class methods that are not in the table of known
     functions (extract-function refactorings)"""
 
-    def __init__(self, tree, known, foreign=None, modname='', is_pkg=False):
+    def __init__(self, tree, known, foreign=None, modname='', is_pkg=False, known_digests=None):
         _InlineMethods.__init__(self, tree)
         self.known = known
+        # hosts that HAD a nested function which is gone now: only there a new helper can be a lifted closure
+        now = function_table(tree)
+        self.lost_nested = {}
+        for q in (known_digests or {}):
+            if q.count('.') >= 1 and q not in now:
+                hostq = q.rsplit('.', 1)[0]
+                if hostq in now and hostq in known_digests:
+                    self.lost_nested.setdefault(id(now[hostq]), []).append(q.rsplit('.', 1)[1])
         self.hcount = [0]
         self.foreign = foreign or {}
         self.modname = modname
@@ -705,6 +713,9 @@ class _InlineNewHelpers(_InlineMethods):
             (gcls, G, calls) = next(iter(sites.values()))
             if len(calls) < 2 or any(isinstance(a, ast.Starred) for c in calls for a in c.args) or any(k.arg is None for c in calls for k in c.keywords):
                 continue
+            if not self.lost_nested.get(id(G)):
+                continue        # nothing was lifted out of this function: a helper called twice is a duplicated block, it is expanded at both places
+            self.lost_nested[id(G)].pop()
             plain = [a.arg for a in H.args.posonlyargs + H.args.args]
             recv_m = None
             if hcls is not None and not static:
@@ -1630,7 +1641,7 @@ class Module:
                     _unstage_fields(node)
         self.tree = ast.fix_missing_locations(_Desugar().visit(raw))
         known = known_functions().get(relpath)
-        if known is not None and _InlineNewHelpers(self.tree, known, foreign=foreign, modname=name, is_pkg=relpath.endswith('__init__.py')).run():
+        if known is not None and _InlineNewHelpers(self.tree, known, foreign=foreign, modname=name, is_pkg=relpath.endswith('__init__.py'), known_digests=kd).run():
             ast.fix_missing_locations(self.tree)
         if any(isinstance(n, ast.ClassDef) and any(n.name == c for (c, _m) in INLINE_HOSTS) for n in self.tree.body):
             _InlineMethods(self.tree).run()
